@@ -87,8 +87,8 @@ impl Op {
     }
 }
 
-pub const COLOUR_STRINGS: [&str; 16] = [
-    "#000000", "#ff0000", "#12ab34cd", "00ff00", // well-formed
+pub const COLOUR_STRINGS: [&str; 18] = [
+    "#000000", "#ff0000", "#12ab34cd", "00ff00", "#102030FF", "#10203000", // well-formed (the last two: alpha given as fully opaque / fully transparent)
     "", "#", "red", "#fff", "#12345", "#1234567", "#gg0000", "#\u{e9}00000", "\u{e9}", "+f+f+f", "#0000000000", " 000000",
 ];
 
@@ -408,7 +408,7 @@ pub fn replay(case: &Value) -> Result<Vec<(String, String)>, String> {
 
 pub fn run(ctx: &Ctx) -> Collector {
     let col = Collector::new("C17", "model_checking");
-    col.set_rule("E2: breadth-first search over SvgOptions setter programs to depth D (quick 3, thorough 4) from SvgOptions::new(), 81-operation alphabet {shape x6, margin x3, ecl x4, version x3, image x5 (one holding literal entities), image_background_shape x3, image_size x4, image_position x5 (lengths 0,1,2,3), three colour setters x 16 strings (4 well-formed, 12 malformed)}; states de-duplicated on the implementation's own Debug string; EVERY (state, operation) transition is executed on the real object (setters may panic); in every distinct state qr_svg is compared with the native SvgBuilder configured from the abstract model for 5 small contents (empty, digits, alphanumeric, bytes, multi-byte UTF-8), and in all states of depth <= 1 also for the level-Q capacity edges +-1 of the three modes and an 8000-character content; qr() compared with the native default build on those contents and every length around the capacity edges; depth 1: all 3905 strings of length <= 5 over {# 0 f g e-acute} through each colour setter; oracle: no call panics; well-formed colour strings (#?RRGGBB[AA]) take effect, malformed ones are ignored or leave a valid colour; outputs byte-identical to native; non-trivial = a document or matrix was returned; distinct = distinct returned strings/arrays");
+    col.set_rule("E2: breadth-first search over SvgOptions setter programs to depth D (quick 3, thorough 4) from SvgOptions::new(), 87-operation alphabet {shape x6, margin x3, ecl x4, version x3, image x5 (one holding literal entities), image_background_shape x3, image_size x4, image_position x5 (lengths 0,1,2,3), three colour setters x 18 strings (6 well-formed incl. an explicit opaque and an explicit transparent alpha, 12 malformed)}; states de-duplicated on the implementation's own Debug string; EVERY (state, operation) transition is executed on the real object (setters may panic); in every distinct state qr_svg is compared with the native SvgBuilder configured from the abstract model for 5 small contents (empty, digits, alphanumeric, bytes, multi-byte UTF-8), and in all states of depth <= 1 also for the level-Q capacity edges +-1 of the three modes and an 8000-character content; qr() compared with the native default build on those contents and every length around the capacity edges; depth 1: all 3905 strings of length <= 5 over {# 0 f g e-acute} through each colour setter; oracle: no call panics; well-formed colour strings (#?RRGGBB[AA]) take effect, malformed ones are ignored or leave a valid colour; outputs byte-identical to native; non-trivial = a document or matrix was returned; distinct = distinct returned strings/arrays");
     col.assume("hook H4 compiles src/wasm.rs unchanged for the host (64-bit usize); the real wasm32 target is not executed");
     col.assume("colours held by the option object are observed black-box by rendering a probe document; the Debug string is used only as an opaque de-duplication key");
     let thorough = ctx.tier.thorough();
